@@ -120,4 +120,20 @@ theorem C06_wiring :
     Sso.Generated.skel_proxy_redeemCode =
       ["if{", "call:New", "return", "}", "call:GetRedirectURL", "call:String", "call:Redeem", "if{", "return", "}", "if{", "call:New", "return", "}", "return"] := by decide
 
+/-- Tie (T1), second wave: helpers, stores and second callers on this property's path (aead_Unmarshal, aead_GenerateKey, store_SetCSRF, store_GetCSRF, store_ClearCSRF, sso_Redeem) — call/branch/store skeletons
+regenerated from the source on every run against the expectations frozen here. -/
+theorem C06_wiring2 :
+    Sso.Generated.skel_aead_Unmarshal =
+      ["call:DecodeString", "if{", "return", "}", "call:EncodeToString", "if{", "call:Errorf", "return", "}", "call:Decrypt", "if{", "return", "}", "call:NewBuffer", "call:NewReader", "if{", "return", "}", "call:Copy", "call:Bytes", "call:Unmarshal", "if{", "return", "}", "return"] ∧
+    Sso.Generated.skel_aead_GenerateKey =
+      ["call:GenerateKey", "return"] ∧
+    Sso.Generated.skel_store_SetCSRF =
+      ["call:Now", "call:makeCSRFCookie", "call:SetCookie"] ∧
+    Sso.Generated.skel_store_GetCSRF =
+      ["call:Cookie", "return"] ∧
+    Sso.Generated.skel_store_ClearCSRF =
+      ["call:Now", "call:makeCSRFCookie", "call:SetCookie"] ∧
+    Sso.Generated.skel_sso_Redeem =
+      ["if{", "call:New", "return", "}", "call:Add", "call:Add", "call:Add", "call:Add", "call:Add", "call:String", "call:Encode", "call:NewBufferString", "call:newRequest", "if{", "return", "}", "call:Set", "call:Do", "if{", "return", "}", "call:ReadAll", "call:Close", "if{", "return", "}", "if{", "call:isProviderUnavailable", "if{", "return", "}", "call:String", "call:Errorf", "return", "}", "call:Unmarshal", "if{", "return", "}", "call:Split", "call:ToLower", "call:Duration", "call:ExtendDeadline", "call:ExtendDeadline", "call:ExtendDeadline", "return"] := by decide
+
 end Sso.Proxy
